@@ -238,7 +238,7 @@ func (vc *VC) modelStruct(n *types.Named, st *types.Struct) bool {
 	if strings.HasPrefix(n.Obj().Pkg().Path(), modulePath) {
 		return true
 	}
-	if st.NumFields() > 8 {
+	if st.NumFields() > 12 {
 		return false
 	}
 	for i := 0; i < st.NumFields(); i++ {
@@ -376,6 +376,9 @@ func (vc *VC) selField(v Val, name string) (Val, bool) {
 // updField returns the struct value v with field name replaced by nv.
 func (vc *VC) updField(v Val, name string, nv string) string {
 	inf := vc.info(v.Sort)
+	if inf == nil || inf.Kind != kStruct {
+		panic(unsupported("write to field " + name + " of an opaque (library) struct"))
+	}
 	var parts []string
 	for _, f := range inf.Fields {
 		if f.Name == name {
